@@ -159,8 +159,10 @@ def write_evidence(prop, tier, seed, level, coverage, assumptions, wall_s, viola
     }
     if extra:
         ev.update(extra)
-    os.makedirs(os.path.join(VERIF, "evidence"), exist_ok=True)
-    path = os.path.join(VERIF, "evidence", prop + ".json")
+    # evidence/ describes /repo; a run against a scratch copy (sensitivity, seed verification) writes next to its own build output
+    evdir = os.path.join(VERIF, "evidence") if REPO == "/repo" else os.path.join(build_root(), "evidence")
+    os.makedirs(evdir, exist_ok=True)
+    path = os.path.join(evdir, prop + ".json")
     tmp = path + ".tmp"
     with open(tmp, "w") as f:
         json.dump(ev, f, indent=1, ensure_ascii=False, sort_keys=True)
